@@ -3,7 +3,7 @@
    Proofs: C16/Lemmas.v (string primitives), C16/Roundtrip.v (reader on the writer's output). *)
 From Coq Require Import List NArith ZArith Permutation.
 Import ListNotations.
-Require Import Base.Wire Base.PyStr C16.Model C16.Lemmas C16.Roundtrip.
+Require Import Base.Wire Base.PyStr C16.Model C16.Lemmas C16.Roundtrip C16.Files.
 
 (* Full statement (refuted on the pinned tree, findings F1/F2/...):
      forall db, read_users (write_users db) = (UState None (sort_users db) (max_id (sort_users db) 0), None)
@@ -61,11 +61,11 @@ Proof. exact blank_name_stops_load. Qed.
 Print Assumptions C16_blank_name_stops_load.
 
 (* further classes outside the domain on which the load completes but the accounts differ:
-   leading blank stripped, TAB expanded, empty nick list becomes [""], hashed flag lost without password *)
+   leading blank stripped, TAB expanded, hashed flag lost without password *)
 Theorem C16_users_silent_change_refuted :
   Forall (fun db => users_dom db = false /\ snd (read_users (write_users db)) = None /\
                     ~ read_users (write_users db) = (UState None (sort_users db) (max_id (sort_users db) 0%Z), None))
-         [w_lead; w_tab; w_nonick; w_hashed].
+         [w_lead; w_tab; w_hashed].
 Proof. exact more_refuted. Qed.
 Print Assumptions C16_users_silent_change_refuted.
 
@@ -80,18 +80,98 @@ Theorem C16_id_roundtrip : forall z, (0 <= z)%Z -> parse_int (dec_Z z) = Ok z.
 Proof. exact parse_int_dec. Qed.
 Print Assumptions C16_id_roundtrip.
 
-(* Channels, networks and ignores.  Full statements (channels):
-     forall db, chan_dom db -> read_channels (write_channels db) = (.. sorted db .., None)
-   The on-domain halves are NOT proved in this development (the models are validated by the differential
-   run and the round trip is checked directly on the implementation); proved here are the refuting
-   witnesses the pinned tree exhibits even for well-formed tokens. *)
+(* ---------------------------------------------------------------------------------------------
+   channels.conf.  Full statement: forall db, the reloaded dictionary is the saved one.  Refuted on the
+   pinned tree (C16.d, C16.e); proved on the decidable domain chan_dom:
+     - keys (in sorted = file order) are rest-of-line safe, already lower-cased (setChannel stores
+       channel.lower()) and distinct under the rfc1459 folding of IrcDict;
+     - capabilities are tokens; every capability IrcChannelCreator starts from (IrcChannel()'s default
+       anticapabilities -op -halfop -voice -protected, read from the source: table CHAN_CREATOR_DEFAULTS)
+       is still in the saved set or its inverse is (defaults_covered), so that re-adding the saved
+       capabilities on top of them gives the same set (caps_reload_same).  A channel from which a default
+       was removed is outside: C16.d, C16_channels_roundtrip_refuted;
+     - ban / ignore masks are distinct tokens (what C16.e violates); any integer expiry.
+   The reloaded record is canon_chan c: same flags, the capability set in insertion order of the
+   reload, bans / ignores in the (stable) expiry order in which they are written;
+   C16_channels_canon_same says this is the same channel (same sets / dictionaries). *)
+Theorem C16_channels_roundtrip_on_domain :
+  forall db, chan_dom db = true ->
+  snd (read_channels (write_channels db)) = None
+  /\ cs_name (fst (read_channels (write_channels db))) = None
+  /\ cs_db (fst (read_channels (write_channels db)))
+     = map (fun kc => (fst kc, canon_chan (snd kc))) (sort_named db).
+Proof. exact channels_roundtrip. Qed.
+Print Assumptions C16_channels_roundtrip_on_domain.
 
-(* a channel whose default anticapability -op was removed gets it back on reload (nothing raised) *)
+Theorem C16_channels_canon_same :
+  forall c, chan_ok c = true ->
+  c_lobo (canon_chan c) = c_lobo c /\ c_default (canon_chan c) = c_default c
+  /\ Permutation (c_caps (canon_chan c)) (c_caps c)
+  /\ Permutation (c_bans (canon_chan c)) (c_bans c) /\ Permutation (c_ignores (canon_chan c)) (c_ignores c).
+Proof. exact canon_chan_same. Qed.
+Print Assumptions C16_channels_canon_same.
+
+(* sorted() neither loses nor adds a record (channels, networks; any value type) *)
+Theorem C16_sort_named_perm : forall A (db : list (str * A)), Permutation (sort_named db) db.
+Proof. intros A db. apply sort_by_perm. Qed.
+Print Assumptions C16_sort_named_perm.
+
+Theorem C16_channels_load_total_on_domain :
+  forall db, chan_dom db = true -> snd (read_channels (write_channels db)) = None.
+Proof. intros db H. exact (proj1 (channels_roundtrip db H)). Qed.
+Print Assumptions C16_channels_load_total_on_domain.
+
+(* ---------------------------------------------------------------------------------------------
+   networks.conf.  Domain net_dom: keys as for channels; STS servers and policies, and the servers of
+   the disconnect times, are tokens, servers distinct (C16.g is outside).  A network without any policy
+   or disconnect time has a header line only and is overwritten by the next header (getNetwork() re-creates
+   it empty on demand, so no policy is lost): net_expected keeps every non-empty network, and the last
+   record of the file whatever it holds.  Dictionaries come back in the server order they are written in. *)
+Theorem C16_networks_roundtrip_on_domain :
+  forall db, net_dom db = true ->
+  snd (read_networks (write_networks db)) = None
+  /\ ns_db (fst (read_networks (write_networks db))) = net_expected (sort_named db).
+Proof. exact networks_roundtrip. Qed.
+Print Assumptions C16_networks_roundtrip_on_domain.
+
+Theorem C16_networks_nothing_dropped :
+  forall l : list (str * net), forallb (fun kn => net_nonempty (snd kn)) l = true ->
+  net_expected l = map (fun kn => (fst kn, canon_net (snd kn))) l.
+Proof. exact net_expected_all. Qed.
+Print Assumptions C16_networks_nothing_dropped.
+
+Theorem C16_networks_load_total_on_domain :
+  forall db, net_dom db = true -> snd (read_networks (write_networks db)) = None.
+Proof. intros db H. exact (proj1 (networks_roundtrip db H)). Qed.
+Print Assumptions C16_networks_load_total_on_domain.
+
+(* ---------------------------------------------------------------------------------------------
+   ignores.  flush at time now writes the entries that have not expired (ign_kept); domain ign_dom: those
+   are distinct tokens that are user hostmasks and do not start with '#' (C16.f is outside), expiry >= 0
+   given as an int or a float repr.  Reload gives exactly those entries, expiry truncated to whole seconds
+   (the normalisation of DESIGN section 6).  IgnoresDB.open cannot stop part-way (per-line handler): totality
+   is "no written line is dropped", i.e. the lengths agree. *)
+Theorem C16_ignores_roundtrip_on_domain :
+  forall now db, ign_dom now db = true ->
+  read_ignores (write_ignores now db)
+  = map (fun he => (fst he, e_int (snd he))) (filter (ign_kept now) db).
+Proof. exact ignores_roundtrip. Qed.
+Print Assumptions C16_ignores_roundtrip_on_domain.
+
+Theorem C16_ignores_load_total_on_domain :
+  forall now db, ign_dom now db = true ->
+  length (read_ignores (write_ignores now db)) = length (filter (ign_kept now) db).
+Proof. intros now db H. rewrite (ignores_roundtrip now db H). unfold ign_expected. apply map_length. Qed.
+Print Assumptions C16_ignores_load_total_on_domain.
+
+(* C16.d: a channel whose default anticapability -op was removed gets it back on reload (nothing raised);
+   the witness is outside chan_dom because -op is not covered *)
 Theorem C16_channels_roundtrip_refuted :
+  chan_dom w_chan = false /\
   snd (read_channels (write_channels w_chan)) = None /\
   cs_db (fst (read_channels (write_channels w_chan)))
   = [(c_name, Chan false true [anti c_op; anti c_halfop; anti c_voice; anti c_protected] [] [])].
-Proof. exact chan_refuted. Qed.
+Proof. split; [exact (proj1 removed_default_outside_domain)|exact chan_refuted]. Qed.
 Print Assumptions C16_channels_roundtrip_refuted.
 
 (* a permanent ignore on the valid hostmask "#x!y@z" is written, then read back as a comment: lost, at any time *)
